@@ -13,6 +13,13 @@ Open Scope N_scope.
 Theorem attribute_value_reloads : forall nsmap kv n w, unmap_attr nsmap kv = ROk (n, w) -> dec_val w = snd kv.
 Proof. exact unmap_attr_value. Qed.
 Print Assumptions attribute_value_reloads.
+(* hypothesis satisfiable: attribute {http://x}id with value a, LT, QUOT, AMP, b; prefix p is bound to http://x;
+   the written name is p:id and the written value differs from the value in memory (it is escaped) *)
+Definition ex_nsmap : list (str * str) := [([112], [104;116;116;112;58;47;47;120])].
+Definition ex_kv : qname * str := (QN [104;116;116;112;58;47;47;120] [105;100], [97;60;34;38;98]).
+Example attribute_value_reloads_hyps_sat :
+  exists n w, unmap_attr ex_nsmap ex_kv = ROk (n, w) /\ n = [112;58;105;100] /\ w <> snd ex_kv.
+Proof. eexists. eexists. split; [reflexivity|split; [reflexivity|discriminate]]. Qed.
 
 (* 1b. stage A (attribute-only subtrees: everything except specification bodies/languages):
        reading the written element gives back the element — same tag, attributes in written order
@@ -22,6 +29,19 @@ Theorem save_reload_partial : forall cfg ll root ind pos r rest, stageA r ->
   read_elem (fst (lay_elem cfg ll root ind pos r) ++ rest) = Some (decode_tree r, rest).
 Proof. intros. now apply read_lay_elem. Qed.
 Print Assumptions save_reload_partial.
+(* hypothesis satisfiable: element a:b with attributes id (written value x&amp;y) and n, and two children: c with one
+   attribute, d without *)
+Ltac name_ok_tac := split; [discriminate|repeat constructor].
+Ltac attr_ok_tac := split; [name_ok_tac|split; [cbn; intuition discriminate|vm_compute; discriminate]].
+Definition ex_relem : relem :=
+  RElem [97;58;98] [([105;100], [120;38;97;109;112;59;121]); ([110], [49])] true None
+    [RElem [99] [([107], [118])] false None [] None; RElem [100] [] false None [] None] None.
+Example save_reload_partial_hyps_sat : stageA ex_relem.
+Proof.
+  constructor; [name_ok_tac|repeat (apply Forall_cons; [attr_ok_tac|]); apply Forall_nil|].
+  apply Forall_cons; [constructor; [name_ok_tac|repeat (apply Forall_cons; [attr_ok_tac|]); apply Forall_nil|apply Forall_nil]|].
+  apply Forall_cons; [constructor; [name_ok_tac|apply Forall_nil|apply Forall_nil]|apply Forall_nil].
+Qed.
 
 (* 1c. the statement fails on the unrepaired writer for two kinds of text (replayed on the
        implementation by harness/c02.py; proposed_fixes/C02-*.diff):
@@ -46,6 +66,8 @@ Example cfg_unrepaired_exists : fix_cdata (SCfg false false) = false /\ fix_blan
 Proof. split; reflexivity. Qed.
 Example cfg_repaired_exists : fix_cdata (SCfg true true) = true /\ fix_blank_leaf (SCfg true true) = true.
 Proof. split; reflexivity. Qed.
+Example blank_text_repaired_hyps_sat : fix_blank_leaf (SCfg true true) = true /\ [32; 10] <> @nil N.
+Proof. split; [reflexivity|discriminate]. Qed.
 
 (* ---- 2. namespaces ------------------------------------------------------------------------ *)
 (* 2a. update_ns_closes: after a successful recomputation every prefix used by an element type is
@@ -57,6 +79,24 @@ Theorem update_ns_closes : forall vps xs m, compute_nsmap vps xs = ROk m ->
   /\ extends seed_map m.
 Proof. exact compute_nsmap_closes. Qed.
 Print Assumptions update_ns_closes.
+(* hypotheses (outer and inner) satisfiable together: viewpoint version 5.2.0, three typed elements: two of the
+   versioned plugin "libraries", one of an unknown prefix "myext" bound in scope to http://e; the recomputation
+   succeeds, and both elements have a wanted URI *)
+Definition ex_vps : list (str * str) :=
+  [([111;114;103;46;112;111;108;97;114;115;121;115;46;99;97;112;101;108;108;97;46;99;111;114;101;46;118;105;101;119;112;111;105;110;116], [53;46;50;46;48])].
+Definition ex_xs : list (str * option str) :=
+  [([108;105;98;114;97;114;105;101;115;58;88], None);
+   ([109;121;101;120;116;58;84], Some [104;116;116;112;58;47;47;101]);
+   ([108;105;98;114;97;114;105;101;115;58;89], None)].
+Example update_ns_closes_hyps_sat :
+  (exists m, compute_nsmap ex_vps ex_xs = ROk m) /\
+  In ([109;121;101;120;116;58;84], Some [104;116;116;112;58;47;47;101]) ex_xs /\
+  wanted ex_vps ([109;121;101;120;116;58;84], Some [104;116;116;112;58;47;47;101]) [104;116;116;112;58;47;47;101] /\
+  (exists uri, wanted ex_vps ([108;105;98;114;97;114;105;101;115;58;88], None) uri).
+Proof.
+  split; [eexists; vm_compute; reflexivity|]. split; [right; now left|]. split; [reflexivity|].
+  eexists. unfold wanted. vm_compute. reflexivity.
+Qed.
 
 (* 2b. the root is replaced only when the map changed; the new root's map has the same bindings,
        sorted by prefix *)
@@ -68,6 +108,12 @@ Theorem update_ns_root : forall old vps xs out, update_namespaces old vps xs = R
     end.
 Proof. exact update_namespaces_spec. Qed.
 Print Assumptions update_ns_root.
+(* hypothesis satisfiable in both branches: against an empty old map the root is replaced; against a reordered copy
+   of the computed map it is kept *)
+Example update_ns_root_hyps_sat :
+  (exists m', update_namespaces [] ex_vps ex_xs = ROk (Some m')) /\
+  (exists m, compute_nsmap ex_vps ex_xs = ROk m /\ update_namespaces (rev m) ex_vps ex_xs = ROk None).
+Proof. split; [eexists; vm_compute; reflexivity|]. eexists. split; vm_compute; reflexivity. Qed.
 
 (* 2c. _round_version keeps the number of parts; either returns the string unchanged (fewer than
        prec dots) or keeps the first prec dot-terminated parts and turns every later part into "0" *)
@@ -78,6 +124,8 @@ Theorem round_version_keeps_parts : forall v prec r, round_version v prec = ROk 
                              /\ Forall (fun c => c = 48 \/ c = DOT) (zero_parts rest false)).
 Proof. exact round_version_spec. Qed.
 Print Assumptions round_version_keeps_parts.
+Example round_version_keeps_parts_hyps_sat : exists r, round_version [53;46;50;46;51] 1 = ROk r /\ r <> [53;46;50;46;51].
+Proof. eexists. split; [reflexivity|discriminate]. Qed.
 Example round_version_example : round_version [53;46;50;46;51] 1 = ROk [53;46;48;46;48].
 Proof. reflexivity. Qed.
 Example compute_example :
